@@ -318,7 +318,8 @@ impl Ctx {
             rng_seed: RngSeed::Fixed(seed),
             failure_persistence: None,
             max_shrink_iters: 4000,
-            max_global_rejects: 1_000_000,
+            max_global_rejects: u32::MAX,
+            max_local_rejects: u32::MAX,
             verbose: 0,
             ..Config::default()
         };
@@ -385,7 +386,8 @@ impl Ctx {
         J: Fn(&S::Value) -> Value,
     {
         let seed = self.seed ^ hash_of(&(self.id, sub)).rotate_left(17);
-        let config = Config { cases, rng_seed: RngSeed::Fixed(seed), failure_persistence: None, ..Config::default() };
+        // filters inside strategies (prop_filter) count their rejections per RUNNER, not per case: no cap for long runs
+        let config = Config { cases, rng_seed: RngSeed::Fixed(seed), failure_persistence: None, max_local_rejects: u32::MAX, max_global_rejects: u32::MAX, ..Config::default() };
         let mut runner = TestRunner::new(config);
         let guarded = |v: &S::Value| -> (Check, Option<R>) {
             match std::panic::catch_unwind(std::panic::AssertUnwindSafe(|| f(v))) {
@@ -461,6 +463,8 @@ impl Ctx {
         let config = Config {
             rng_seed: RngSeed::Fixed(seed),
             failure_persistence: None,
+            max_local_rejects: u32::MAX,
+            max_global_rejects: u32::MAX,
             ..Config::default()
         };
         let mut runner = TestRunner::new(config);
